@@ -198,6 +198,34 @@ CHECKS["C17"] = (
     "5/C17",
 )
 
+CHECKS["C01"] = (
+    "model_checking",
+    "bounded-exhaustive enumeration of engine recipes x input rows executed on the real engine against a reference pipeline",
+    "Six recipe sub-spaces, each enumerated completely: all 7x9x7x9 operator assignments of a 3-rule engine x integral "
+    "defuzzifiers; every shape term as input and output term, Takagi-Sugeno (Constant/Linear/Function), Tsukamoto and "
+    "inverse Tsukamoto outputs; all 2^10 enabled-flag assignments of a 2x2x2 engine; output variables in antecedents "
+    "under 10 aggregations x all rule orders x block orders x activation methods; all antecedent trees x weights x "
+    "consequents; 16 activation settings. Each engine is built through the public constructors and processed on rows "
+    "incl. bounds, break points, out of range, +-inf, NaN; rule degrees, triggered flags, fuzzy outputs, sampled "
+    "aggregated memberships and output values are compared with the reference pipeline.",
+    "1-3 inputs, 1-2 outputs, 1-2 blocks, <= 4 rules per block; tie-sensitive defuzzifiers are decided on the "
+    "implementation's sample vector after it has been compared with the reference membership; hedged conclusions only "
+    "last in a consequent (C07's known finding).",
+    "5/C01",
+)
+CHECKS["C02"] = (
+    "model_checking",
+    "exhaustive enumeration of input batches on real engines with a differential float-vs-batch oracle",
+    "For ~120 engine recipes (operator deviations x integral defuzzifiers, all 20 shape terms, Takagi-Sugeno, "
+    "Tsukamoto, inverse Tsukamoto, hybrid with chained blocks) every batch of 1..N rows over a row alphabet with "
+    "interior, bound, break point, out-of-range, +-inf and NaN rows is processed (i) row by row with Python floats, "
+    "(ii) as per-variable arrays, (iii) through the Engine.input_values matrix, (iv) split into two successive array "
+    "calls at every position, under lock-previous/default/lock-range settings; outputs and fuzzy_value() strings must "
+    "agree row for row and the exception class (or none) must be the same.",
+    "N = 2-3 (quick) / 3-4 (thorough); all 8 lock settings for the base engines, 2 for the others; General activation.",
+    "5/C02",
+)
+
 REASON_NOT_BUILT = "check not built yet in this phase (planned in DESIGN.md section 5); no claim is made"
 
 
